@@ -144,7 +144,7 @@ def run_case(case):
 
 def main(ctx):
     ctx.rule = ("HDC part: the C02 grid family (models x alpha x limits x deltas incl. default grids and anisotropic cells); "
-                "sorter part: ALL subsets of k points (k=3..6 quick, 3..7 thorough) of a 4x4 lattice under axis scalings "
+                "sorter part: ALL subsets of k points (k=1..6 quick, 1..7 thorough) of a 4x4 lattice under axis scalings "
                 "(1,1),(1,3),(1,10),(0.0202,0.0484) and both search_for_optimal_start values, plus digital-disc boundaries "
                 "of radius 3..20 under the same scalings. evaluations = contours + sorter calls; every case is non-trivial "
                 "except HDC cases whose region could not be established (C02 failure, ties at fm).")
@@ -154,7 +154,7 @@ def main(ctx):
     for c in c02.all_cases(ctx):
         cases.append(dict(c, kind="hdc"))
     kmax = 6 if ctx.quick else 7
-    for k in range(3, kmax + 1):
+    for k in range(1, kmax + 1):
         for sc in SCALINGS:
             for opt in (False, True):
                 if k == 7 and not (opt and sc in (SCALINGS[0], SCALINGS[2])):
